@@ -182,7 +182,7 @@ def raw_worker(job):
                 # cannot answer it, so the walk ends in a timeout - not judged.  Anything else malformed is a finding.
                 blob = req.raw + (req.plaintext or b"")
                 last = st["offered"][-1] if st["offered"] else []
-                if any(B.tlv(B.OID, nm) in blob for nm in last):
+                if any(isinstance(nm, tuple) for nm in last) or any(B.tlv(B.OID, nm) in blob for nm in last if not isinstance(nm, tuple)):
                     st["echo"] = True
                 else:
                     st["malformed"] = (req.err, req.raw.hex())
@@ -199,7 +199,7 @@ def raw_worker(job):
             vbs = []
             for nm in names:
                 st["serial"] += 1
-                vbs.append(B.enc_seq([B.tlv(B.OID, nm), B.enc_int(st["serial"])]))
+                vbs.append(B.enc_seq([B.tlv(B.RELOID, nm[1]) if isinstance(nm, tuple) else B.tlv(B.OID, nm), B.enc_int(st["serial"])]))
             return agent.reply(req, vbs)
         return agent.discovery_or(req, f)
     agent = rigp.Agent(handler, users=[cfg.user_keys()]).start()
@@ -212,6 +212,14 @@ def raw_worker(job):
             op = "getnext"
         depth = rng.choice([1, 2, 3, 5])
         script = [[rng.choice(U) for _ in range(1 if op == "getnext" else rng.choice([1, 2, 3, 5]))] for _ in range(depth)]
+        if op == "getbulk" and rng.random() < 0.35:
+            # some non-first names as RELATIVE-OIDs (they bypass the OBJECT IDENTIFIER decoder), also with zero-padded
+            # sub-identifiers: 80 05 is 5, not something greater than 6
+            REL = [b"\x05", b"\x06", b"\x80\x05", b"\x80\x80\x05", b"\x80\x06", b"\x04\x01", b"\x80\x04\x01", b"\x07", b"\x80\x80\x80\x01", b"\x01"]
+            for r in script:
+                for j in range(1, len(r)):
+                    if rng.random() < 0.6:
+                        r[j] = ("rel", rng.choice(REL))
         cycle = rng.random() < 0.4
         st.update(script=script, cycle=cycle, reqs=[], offered=[], serial=ci * 100, limit=len(U) * 3 + 6)
         st.pop("malformed", None)
@@ -242,6 +250,8 @@ def raw_worker(job):
                 break
             prev = t
         for k, rq in enumerate(st["reqs"]):
+            if k > 0 and any(isinstance(nm, tuple) for nm in st["offered"][k - 1]):
+                continue   # a relative name was offered: what it resolves to is the decoder's business, not judged here
             allowed = {base_c} if k == 0 else set(st["offered"][k - 1]) | {st["reqs"][k - 1]}
             if rq not in allowed and "malformed" not in st:
                 bad.append(("wrong-continuation", "request %d names %s, which the previous reply did not carry (%s)" % (
@@ -253,7 +263,7 @@ def raw_worker(job):
             res["outcomes"]["raw:echoed-malformed-name"] = 1
         for sig, msg in bad:
             if len(res["bad"]) < 60:
-                res["bad"].append({"sig": sig, "msg": msg, "cfgkey": cfg.key(), "op": op, "script": [[x.hex() for x in r] for r in script] + (["(repeated for ever)"] if cycle else []),
+                res["bad"].append({"sig": sig, "msg": msg, "cfgkey": cfg.key(), "op": op, "script": [[("rel:" + x[1].hex()) if isinstance(x, tuple) else x.hex() for x in r] for r in script] + (["(repeated for ever)"] if cycle else []),
                                    "requests": [x.hex() for x in st["reqs"]][:12], "yields": [(y[0], y[1]) for y in yields][:12], "outcome": repr(out)[:200]})
         if bad or out[0] == "exc":
             drv.close()
